@@ -4,7 +4,8 @@
 #  2. the change compiles and the pinned tests pass (seedcheck)
 #  3. the property's check is run against it (quick, then thorough if quick misses)
 set -u
-ID="$1"; SRC="/tmp/seed-out/$ID"; DEMODIR="${2:-}"
+# env: SEED_SRC (default /tmp/seed-out) = directory the sub-agents wrote to; SEED_SUFFIX (e.g. -r2) = suffix of the seeded/<id><suffix> directory
+ID="$1"; SRC="${SEED_SRC:-/tmp/seed-out}/$ID"; DEMODIR="${2:-}"; DEST="$ID${SEED_SUFFIX:-}"
 export GOFLAGS=-mod=mod GOPROXY=off GOSUMDB=off GOTOOLCHAIN=local
 [ -f "$SRC/patch.diff" ] || { echo "no patch"; exit 2; }
 WT="/var/tmp/vdemo-$ID-$$"
@@ -39,14 +40,14 @@ if ! echo "$q" | grep -q 'exit=1'; then
   if echo "$t" | grep -q 'exit=1'; then caught="thorough"; else caught="MISSED"; fi
   q="$q | thorough: $t"
 fi
-mkdir -p "seeded/$ID"
-cp "$SRC/patch.diff" "seeded/$ID/"; cp "$SRC"/*_test.go "$SRC"/*.go "seeded/$ID/" 2>/dev/null
-python3 - "$ID" "$demo_result" "$caught" "$q" <<'PY'
+mkdir -p "seeded/$DEST"
+cp "$SRC/patch.diff" "seeded/$DEST/"; cp "$SRC"/*_test.go "$SRC"/*.go "seeded/$DEST/" 2>/dev/null
+python3 - "$ID" "$demo_result" "$caught" "$q" "$SRC" "$DEST" <<'PY'
 import json,sys
-id,demo,caught,q=sys.argv[1:5]
-try: m=json.load(open(f"/tmp/seed-out/{id}/meta.json"))
+id,demo,caught,q,src,dest=sys.argv[1:7]
+try: m=json.load(open(f"{src}/meta.json"))
 except Exception as e: m={"property":id,"summary":"(meta.json missing or invalid)"}
 m["confirmed_by_us"]={"demonstration":demo,"check_result":caught,"check_output":q[:1500],"how":"tools/seedadopt.sh: demo run in a scratch worktree with and without the patch; tools/seedcheck.sh: go build, pinned RedisGO tests, then ./vf check against the patched worktree (VERIF_REPO)"}
-json.dump(m,open(f"/verif/seeded/{id}/meta.json","w"),indent=1)
+json.dump(m,open(f"/verif/seeded/{dest}/meta.json","w"),indent=1)
 PY
-echo "ADOPTED $ID: $caught"
+echo "ADOPTED $DEST: $caught"
